@@ -15,6 +15,7 @@ import (
 
 func init() {
 	reg("H_C04_fee", H_C04_fee)
+	reg("H_C04_fee3", H_C04_fee3)
 	reg("H_C04_compute_amount", H_C04_compute_amount)
 	reg("H_C04_count", H_C04_count)
 }
@@ -45,6 +46,8 @@ const (
 
 // H_C04_fee: the real FeeController.HandlePacket on a ledger, over all amounts, bps values, fixed amounts and
 // lists of 0..N entries (N = bound "entries", one past MaxFeeRecipients in thorough).
+func H_C04_fee3() { H_C04_fee() } // thorough tier only: three entries over fewer recipient / entry kinds
+
 func H_C04_fee() {
 	ctx := context.Background()
 	l := &Ledger{}
